@@ -39,6 +39,10 @@ func withHints(assump []*Term, goal *Term) ([]*Term, *Term) {
 		}
 		break
 	}
+	if len(skolems) == 0 && goal.Op == "and" {
+		// a conjunction of goals skolemised beforehand (skolemizeGoal): its skolem constants are the candidates
+		skolems = skolemsOf(goal, 6)
+	}
 	// candidate instantiation terms: skolems, plus select indices in the goal that mention a skolem
 	cands := append([]*Term(nil), skolems...)
 	seen := map[*Term]bool{}
@@ -228,7 +232,7 @@ func withHints(assump []*Term, goal *Term) ([]*Term, *Term) {
 			}
 		}
 		for c := range insts {
-			inst := Substitute(q.Args[0], map[string]*Term{b.Name: c})
+			inst := instantiate1(q.Args[0], b, c)
 			if guard != nil {
 				inst = Implies(guard, inst)
 			}
@@ -281,7 +285,7 @@ func withHints(assump []*Term, goal *Term) ([]*Term, *Term) {
 					}
 					qi.done[v] = true
 					total++
-					inst := Substitute(qi.q.Args[0], map[string]*Term{b.Name: v})
+					inst := instantiate1(qi.q.Args[0], b, v)
 					if qi.guard != nil {
 						inst = Implies(qi.guard, inst)
 					}
@@ -361,7 +365,7 @@ func ematchSelectPatterns(out []*Term, n int, goal *Term) []*Term {
 				}
 				p.done[f[1]] = true
 				total++
-				inst := Substitute(p.q.Args[0], map[string]*Term{p.q.Bound[0].Name: f[1]})
+				inst := instantiate1(p.q.Args[0], p.q.Bound[0], f[1])
 				if p.guard != nil {
 					inst = Implies(p.guard, inst)
 				}
@@ -556,6 +560,63 @@ type groundSel struct {
 	ite      bool
 	app      string
 	args     []*Term
+}
+
+// instantiate1 is Substitute(body, {b: v}) memoised per (body, v): the same instance is needed for every conjunct of an
+// obligation and for obligations sharing a path prefix. The memo is emptied whenever the hash-consing table is swept.
+var instMemo sync.Map
+
+type instKey struct{ body, v *Term }
+
+func instantiate1(body *Term, b *Term, v *Term) *Term {
+	k := instKey{body, v}
+	if r, ok := instMemo.Load(k); ok {
+		return r.(*Term)
+	}
+	r := Substitute(body, map[string]*Term{b.Name: v})
+	instMemo.Store(k, r)
+	return r
+}
+
+// skolemizeGoal turns A => (forall x. B) into A => B[sk/x] with fresh constants (proving the latter proves the former).
+func skolemizeGoal(g *Term) *Term {
+	switch {
+	case g.Op == "=>":
+		b := skolemizeGoal(g.Args[1])
+		if b == g.Args[1] {
+			return g
+		}
+		return Implies(g.Args[0], b)
+	case g.Op == "forall":
+		m := map[string]*Term{}
+		for _, b := range g.Bound {
+			m[b.Name] = Var(fmt.Sprintf("sk!%s!%d", b.Name, atomic.AddInt64(&skolemSeq, 1)), b.Sort)
+		}
+		return skolemizeGoal(Substitute(g.Args[0], m))
+	}
+	return g
+}
+
+// skolemsOf lists the skolem constants occurring in t (at most limit).
+func skolemsOf(t *Term, limit int) []*Term {
+	var out []*Term
+	vis := map[*Term]bool{}
+	var w func(x *Term)
+	w = func(x *Term) {
+		if vis[x] || len(out) >= limit || !mentionsSkolem(x) {
+			return
+		}
+		vis[x] = true
+		if x.Op == "var" && strings.HasPrefix(x.Name, "sk!") {
+			out = append(out, x)
+			return
+		}
+		for _, a := range x.Args {
+			w(a)
+		}
+	}
+	w(t)
+	return out
 }
 
 // mentionsSkolem: the term contains a skolem constant of the goal (memoised)
